@@ -595,6 +595,66 @@ func (r *fragReader) Read(p []byte) (int, error) {
 	return k, nil
 }
 
+var errSource = errors.New("c15: injected source error")
+
+// errReader delivers data[:errAt] in pieces of 1..maxPiece bytes and then fails with errSource: together
+// with the last piece (withData, when there is one) or on the following Read.
+type errReader struct {
+	data     []byte
+	pos      int
+	errAt    int
+	maxPiece int
+	withData bool
+	rnd      *hk.Rand
+}
+
+func (r *errReader) Read(p []byte) (int, error) {
+	rem := r.errAt - r.pos
+	if rem <= 0 {
+		return 0, errSource
+	}
+	if len(p) == 0 {
+		return 0, nil
+	}
+	k := min(1+r.rnd.Intn(r.maxPiece), len(p), rem)
+	copy(p, r.data[r.pos:r.pos+k])
+	r.pos += k
+	if r.pos == r.errAt && r.withData {
+		return k, errSource
+	}
+	return k, nil
+}
+
+// doWriteSrcErr: WriteFileFromReader from a source that fails mid-stream.
+func doWriteSrcErr(dataSpec string, n, errAt, maxPiece int, withData bool) (out string, ok bool) {
+	data, ok := genData(dataSpec, n)
+	if !ok {
+		return "", false
+	}
+	sto := &memory.Storage{}
+	rd := &errReader{data: data, errAt: errAt, maxPiece: maxPiece, withData: withData, rnd: hk.NewRand(uint64(n*31 + errAt))}
+	br, err := schema.WriteFileFromReader(ctxbg, sto, "f", rd)
+	switch {
+	case errors.Is(err, errSource):
+		return "err-source", true
+	case err != nil:
+		return "err", true
+	}
+	var res writeResult
+	tree, terr := sizesTree(sto, br, &res, 0)
+	if terr != nil {
+		return "ok-but-unreadable", true
+	}
+	size := int64(-1)
+	if fr, err := schema.NewFileReader(ctxbg, sto, br); err == nil {
+		size = fr.Size()
+	}
+	if tree == "" {
+		tree = "-"
+	}
+	return fmt.Sprintf("ok %d %s", size, tree), true
+}
+
 // recStore records when each blob's ReceiveBlob started and completed.
 type recStore struct {
 	*memory.Storage
@@ -1109,6 +1169,22 @@ func (e *env) exec(w []string) string {
 			return "bad-op"
 		}
 		return res.out
+	case "chunkse":
+		if len(w) != 6 {
+			return "bad-op"
+		}
+		n, ok1 := num(w[2])
+		ea, ok2 := num(w[3])
+		mp, ok3 := num(w[4])
+		wd, ok4 := num(w[5])
+		if !ok1 || !ok2 || !ok3 || !ok4 || n > maxWriteLen || ea > n || mp < 1 || mp > 1<<24 || wd > 1 {
+			return "bad-op"
+		}
+		out, ok := doWriteSrcErr(w[1], int(n), int(ea), int(mp), wd == 1)
+		if !ok {
+			return "bad-op"
+		}
+		return out
 	case "sset":
 		if len(w) != 3 {
 			return "bad-op"
@@ -1151,6 +1227,27 @@ func chunksArgsOK(eof, splits string, n uint64) bool {
 type gen struct {
 	r  *hk.Run
 	ex func([]string) string
+}
+
+// recoverCase turns a panic inside one generated case into an oracle failure that carries the case's
+// last ops (nothing the code under test does may end the run without a Failure): defer it directly.
+func (g *gen) recoverCase(where string) {
+	if e := recover(); e != nil {
+		ops := g.r.CaseOps()
+		if len(ops) > 4 {
+			ops = ops[len(ops)-4:]
+		}
+		for i, o := range ops {
+			if len(o) > 4000 {
+				ops[i] = o[:4000]
+			}
+		}
+		st := string(debug.Stack())
+		if i := strings.Index(st, "props/c15.(*gen)"); i > 0 {
+			st = st[i:]
+		}
+		g.r.Fail("harness-panic-in-"+where, fmt.Sprintf("%v | %s", e, st[:min(len(st), 600)]), "no panic", "panic", ops)
+	}
 }
 
 func (g *gen) op(line string) string {
@@ -1251,6 +1348,7 @@ func sliceOf(d []byte, off, n uint64) []byte {
 
 // readerCase: one tree, every (off, n), through ReadAt, Seek+Read and ForeachChunk.
 func (g *gen) readerCase(ts []*ptree, exhaustive bool) {
+	defer g.recoverCase("readerCase")
 	r := g.r
 	enc := encParts(ts)
 	treeOp := "tree " + enc
@@ -1374,6 +1472,7 @@ func leafSpans(ts []*ptree, base, lo, hi int64, emit func(start, size, vlo, vhi 
 // 4 KiB … > 1 MiB): reads that start before, at and beyond every boundary inside every leaf and that
 // cross the leaf's end, through ReadAt, Seek+Read, sequential Read with several buffer sizes, ReadAll.
 func (g *gen) bigReaderCase(ts []*ptree, label string) {
+	defer g.recoverCase("bigReaderCase")
 	r := g.r
 	enc := encParts(ts)
 	treeOp := "tree " + enc
@@ -1555,6 +1654,7 @@ type writeCase struct {
 }
 
 func (g *gen) writerCase(wc writeCase) {
+	defer g.recoverCase("writerCase")
 	r := g.r
 	dataSpec := fmt.Sprintf("%s:%d", wc.kind, r.R.Intn(1_000_000))
 	res, ok := doWrite(dataSpec, wc.reader, wc.n, r.R.Fork())
@@ -1686,11 +1786,18 @@ func (g *gen) writerCase(wc writeCase) {
 // faultBase: one file written again and again through a blob server that refuses selected blobs: every
 // position in turn, at once and after the source reported EOF, alone and several together.
 func (g *gen) faultBase(kind, reader string, n int) {
+	defer g.recoverCase("faultBase")
 	r := g.r
 	dataSpec := fmt.Sprintf("%s:%d", kind, r.R.Intn(1_000_000))
 	dry, ok := doWrite(dataSpec, reader, n, nil)
-	if !ok || !strings.HasPrefix(dry.out, "ok ") {
-		panic("bad fault base " + dataSpec)
+	if !ok {
+		panic("bad fault base spec " + dataSpec + " " + reader)
+	}
+	if !strings.HasPrefix(dry.out, "ok ") {
+		line := fmt.Sprintf("chunks %s %s %d - %s", dataSpec, reader, n, realSplits(dry.data))
+		r.Op(line, dry.out)
+		r.Fail("write-error", fmt.Sprintf("WriteFileFromReader failed without any refused blob: chunks %s %s %d", dataSpec, reader, n), "ok", dry.out, []string{line})
+		return
 	}
 	eof := "-"
 	if dry.eofFrom >= 0 {
@@ -1747,10 +1854,11 @@ func (g *gen) faultBase(kind, reader string, n int) {
 	for _, sel := range sels {
 		fs, _ := parseFails(sel)
 		res, ok := doWriteF(dataSpec, reader, n, fs)
-		if !ok {
-			panic("bad fault case " + short + sel)
-		}
 		line := prefix + sel
+		if !ok {
+			r.Fail("write-error", "the write without refused blobs failed on the second run: "+short+sel, "ok", "err", []string{line})
+			continue
+		}
 		r.Op(line, res.out)
 		r.Distinct(fmt.Sprintf("fault:%s:%s:%d:%s", kind, reader, n, sel))
 		// the property: an error, or everything the returned ref references is stored and reads back
@@ -1850,6 +1958,13 @@ func (g *gen) writeFileChunksUnderFaults(dry writeResult, reader string, fs []fa
 // splitStats classifies every position at which the real rollsum reported a split.
 func (g *gen) splitStats(res writeResult) {
 	r := g.r
+	var total uint64
+	for _, s := range res.leaves {
+		total += s
+	}
+	if total != uint64(len(res.data)) {
+		return // the chunks do not cover the input: already reported by the read-back oracle
+	}
 	bounds := map[int]bool{}
 	var starts []int
 	b := 0
@@ -1890,6 +2005,7 @@ func (g *gen) splitStats(res writeResult) {
 }
 
 func (g *gen) ssetCase(m, l int) {
+	defer g.recoverCase("ssetCase")
 	r := g.r
 	line := fmt.Sprintf("sset %d %d", m, l)
 	var res ssetResult
@@ -1929,7 +2045,7 @@ func Run(r *hk.Run) {
 	// neighbouring seeds would generate almost the same cases: re-seed from a mixed output.
 	r.R = hk.NewRand(r.R.U64() ^ 0xC15C15C15)
 	rnd := r.R
-	r.Res.Rule = "cases: (a) WriteFileFromReader for lengths around 0/1/64KiB/256KiB/1MiB(+multiples) x content kinds (zero, const, random, rollsum-dense windows, mixed) x reader fragmentations (plain, 1-byte, short reads, data+EOF); (b) generated part trees (depth<=3, offsets, sub-ranges, holes, nested bytes; some ill-formed) x every (off,len) through ReadAt, Seek+Read, ForeachChunk; (b') hand-shaped trees with one hole of 4095..1200000 bytes (alone, first, last, adjacent to holes and blobs, inside nested bytes blobs entered at an offset, two levels deep) and trees of generated blobs crossing 64 KiB / 1 MiB: ReadAt / Seek+Read at every buffer-size boundary inside every leaf (1, 4 KiB, 32 KiB, 64 KiB, 100000, 128 KiB, 256 KiB, 1 MiB, each -1/+1) with lengths 1..140000 and to the end, sequential Read with buffers 1000..1 MiB, io.ReadAll, Seek+io.Copy; (a') the same writes through a blob server whose ReceiveBlob refuses selected blobs: each chunk position (first, middle, last), each bytes schema blob, the file blob, immediately and delayed until after the source reported EOF, single and several, also through WriteFileChunks; (c) static sets for limit M in 3..10 and the shipped limit, member counts around M, M^2, M^3. distinct = distinct (content kind, reader, length) writes + distinct trees + distinct (M, count); non-trivial = a write of >= 1 byte, a tree with >= 1 part, a set with > M members"
+	r.Res.Rule = "cases: (a) WriteFileFromReader for lengths around 0/1/64KiB/256KiB/1MiB(+multiples) x content kinds (zero, const, random, rollsum-dense windows, mixed) x reader fragmentations (plain, 1-byte, short reads, data+EOF); (b) generated part trees (depth<=3, offsets, sub-ranges, holes, nested bytes; some ill-formed) x every (off,len) through ReadAt, Seek+Read, ForeachChunk; (b') hand-shaped trees with one hole of 4095..1200000 bytes (alone, first, last, adjacent to holes and blobs, inside nested bytes blobs entered at an offset, two levels deep) and trees of generated blobs crossing 64 KiB / 1 MiB: ReadAt / Seek+Read at every buffer-size boundary inside every leaf (1, 4 KiB, 32 KiB, 64 KiB, 100000, 128 KiB, 256 KiB, 1 MiB, each -1/+1) with lengths 1..140000 and to the end, sequential Read with buffers 1000..1 MiB, io.ReadAll, Seek+io.Copy; (a'') sources failing with a non-EOF error after 0, 1, n/2, n-1, n bytes (error together with the last data or on its own read; 1-byte, short, large pieces); (a') the same writes through a blob server whose ReceiveBlob refuses selected blobs: each chunk position (first, middle, last), each bytes schema blob, the file blob, immediately and delayed until after the source reported EOF, single and several, also through WriteFileChunks; (c) static sets for limit M in 3..10 and the shipped limit, member counts around M, M^2, M^3. distinct = distinct (content kind, reader, length) writes + distinct trees + distinct (M, count); non-trivial = a write of >= 1 byte, a tree with >= 1 part, a set with > M members"
 
 	// ---- (a) writer ----
 	const K = 1 << 10
@@ -1976,6 +2092,41 @@ func Run(r *hk.Run) {
 		}
 		rs := readers()
 		g.writerCase(writeCase{kinds[rnd.Intn(len(kinds))], rs[rnd.Intn(len(rs))], n})
+	}
+
+	// ---- (a'') the source fails mid-stream: the write must report that error ----
+	r.Case("writer-source-errors")
+	for _, n := range []int{0, 1, 100, 32*K - 1, 32 * K, 32*K + 1, 100000, 256 * K, 300000, 1024*K + 5} {
+		seen := map[int]bool{}
+		for _, ea := range []int{0, 1, n / 2, n - 1, n} {
+			if ea < 0 || ea > n || seen[ea] {
+				continue
+			}
+			seen[ea] = true
+			for _, mp := range []int{1, 5000, 1 << 24} {
+				if mp == 1 && ea > 70000 {
+					continue
+				}
+				for wd := 0; wd <= 1; wd++ {
+					line := fmt.Sprintf("chunkse rand:%d %d %d %d %d", rnd.Intn(1000), n, ea, mp, wd)
+					out := g.op(line)
+					r.Distinct(line)
+					switch {
+					case out == "err-source":
+						r.Hit("srcerr:write-returned-the-source-error")
+					case strings.HasPrefix(out, "ok"):
+						r.Fail("write-success-despite-source-error", "WriteFileFromReader returned a file although the source failed after "+fmt.Sprint(ea)+" of "+fmt.Sprint(n)+" bytes", "err-source", out, []string{line})
+					default:
+						r.Fail("write-wrong-error-for-source-error", line, "err-source", out, []string{line})
+					}
+					if wd == 1 && ea > 0 {
+						r.Hit("srcerr:error-together-with-data")
+					} else {
+						r.Hit("srcerr:error-on-its-own-read")
+					}
+				}
+			}
+		}
 	}
 
 	// ---- (a') writer over a blob server that refuses blobs ----
@@ -2082,7 +2233,7 @@ func Run(r *hk.Run) {
 	for _, l := range []string{"", "tree", "tree h", "tree h3,", "tree b61:0", "tree b6:0:1", "tree B61:0:1", "tree n0:1[h1", "tree n0:1[h1,]",
 		"tree h1,,h1", "tree h1]", "tree h1234567890123", "readat", "readat 1", "readat -1 2", "readat 1 x", "readat 0 16777217", "readat 1_0 1",
 		"seekread 1", "seqread", "seqread 0 0 5", "seqread 0 1 16777217", "seqread 0 16777217 1", "seqread x 1 1", "tree r1:4194305:0:1", "tree r1:5:0", "tree r1:5:0:5,", "tree s5.1:0:1", "foreach 1", "chunks", "chunks rand:1 p 10 - 11:13", "chunks rand:1 p 10 - 5:13,5:14", "chunks rand:1 p 10 x -",
-		"chunks rand:1 p 10 - 5", "chunks rand:1 p 67108865 - -", "chunksf rand:1 p 10 - - c", "chunksf rand:1 p 10 - - c0,,f", "chunksf rand:1 p 10 - - c0,c1,c2,c3,c4,c5,c6,c7,c8", "chunksf rand:1 p 10 - - z1", "chunksf rand:1 p 10 - -", "sset", "sset 3", "sset 3 x", "sset 3 262145", "frobnicate 1 2", "tree h2", "readat 0 2"} {
+		"chunks rand:1 p 10 - 5", "chunks rand:1 p 67108865 - -", "chunksf rand:1 p 10 - - c", "chunksf rand:1 p 10 - - c0,,f", "chunksf rand:1 p 10 - - c0,c1,c2,c3,c4,c5,c6,c7,c8", "chunksf rand:1 p 10 - - z1", "chunksf rand:1 p 10 - -", "chunkse", "chunkse rand:1 10 11 3 1", "chunkse rand:1 10 5 0 1", "chunkse rand:1 10 5 3 2", "chunkse rand:1 10 x 3 1", "sset", "sset 3", "sset 3 x", "sset 3 262145", "frobnicate 1 2", "tree h2", "readat 0 2"} {
 		g.op(l)
 	}
 
